@@ -119,6 +119,9 @@ def run(chk, fb, tier):
     # ---------------- D4
     _d4(chk, fb, tier)
 
+    from . import copyrule
+    chk.rule("DC", "copy constructor and copy assignment copy the same members; operator= empties a member container before re-populating it; copy functions never assign through a stored shared pointer")
+    copyrule.check(chk, fb, "DC", lambda c: c["file"].endswith(("Bpp/Numeric/Parameter.h", "Bpp/Numeric/AutoParameter.h", "Bpp/Numeric/Constraints.h")), floor=2)
     chk.assume("constraint objects are shared and mutable: a constraint mutated after installation (e.g. intMinMax_ of Simple/Constant/"
                "TruncatedExponential distributions via setUpperBound/&=) is outside the who-writes rule")
     chk.assume("E3: totally ordered coordinates without NaN; a lower bound of +inf / an upper bound of -inf is excluded from the emptiness oracle")
